@@ -65,9 +65,7 @@ EdAlphaThorough ==
   EdAlphaQuick \cup
   { F(1, 4, "\r\n ", "h:80", ""),        F(2, 3, "  ", "5", " \t"),
     F(3, 2, "", "gzip,\r\n chunked", ""), F(4, 3, " ", "a b\tc", " "),
-    F(5, 1, " ", "z", ""),               F(7, 1, " ", "z", ""),
-    F(8, 2, " ", "7", ""),               F(10, 1, " ", "chunked", ""),
-    F(11, 1, " ", "chunked", "") }
+    F(10, 1, " ", "chunked", "") }
 
 NoFields == {}
 
